@@ -87,7 +87,8 @@ class _Spec:
         node = {'name': self.subst(head.get('name'), ctx),
                 'id': self.subst(head.get('id'), ctx),
                 'class': self.subst(' '.join(head['cls']), ctx) if head.get('cls') else None,
-                'attrs': [[k, self.subst(v, ctx)] for k, v in head.get('attrs', ())],
+                # an attribute *name* is a place for `$` runs like any other name
+                'attrs': [[self.subst(k, ctx), self.subst(v, ctx)] for k, v in head.get('attrs', ())],
                 'text': self.subst(head.get('text'), ctx)}
         node['children'] = self.items(it[3], ctx)
         return [node]
@@ -147,7 +148,7 @@ def spec_expand(ast, limit):
     def fin(node):
         for k in ('name', 'id', 'class', 'text'):
             node[k] = _resolve(node[k])
-        node['attrs'] = [[k, _resolve(v)] for k, v in node['attrs']]
+        node['attrs'] = [[_resolve(k), _resolve(v)] for k, v in node['attrs']]
         for c in node['children']:
             fin(c)
     for nd in forest:
@@ -166,7 +167,7 @@ def _show(forest):
         if nd['class'] is not None:
             t += '.' + s(nd['class'])
         for k, v in nd['attrs']:
-            t += '[%s=%s]' % (k, s(v))
+            t += '[%s]' % s(k) if v is None else '[%s=%s]' % (s(k), s(v))
         if nd['text'] is not None:
             t += '{%s}' % s(nd['text'])
         if nd['children']:
@@ -184,7 +185,12 @@ def _compare(exp, got, path='/'):
             return 'missing element %s at %s' % (_show([dict(exp[i], children=[])]), here)
         e, g = exp[i], got[i]
         pairs = [('name', e['name'], g[0]), ('id', e['id'], G.attr(g, 'id')), ('class', e['class'], G.attr(g, 'class'))]
-        pairs += [('attribute ' + k, v, G.attr(g, k)) for k, v in e['attrs']]
+        for k, v in e['attrs']:
+            if k is ANY:
+                continue                            # the name itself is not fixed by the statement
+            if k not in [gk for gk, _ in g[1]]:
+                return 'the element at %s has no attribute %r (its attributes: %s)' % (here, k, [gk for gk, _ in g[1]])
+            pairs.append(('attribute ' + k, v, G.attr(g, k)))
         if e['text'] is not None:
             pairs.append(('text', e['text'], g[2].strip()))
         for what, ev, gv in pairs:
@@ -482,6 +488,166 @@ def random_bystander_cases(seed, count):
             text = rng.choice((None, 'T', 'some text', ['T', 'Uu'], ['a', '', 'b c']))
         yield (ast, limit, rng.choice(('html', 'xml', 'xhtml')), rng.random() < 0.5, text)
 
+# ----------------------------------------------------------------------------- clause 6: `$` runs in attribute names
+NAME_FORMS = ['$', '$$', '$$$', '$@3', '$@0', '$$$@4', '$@-', '$$@-', '$@-3', '$@-0']
+# what stands beside the numbered attribute name
+ATTR_KINDS = ['no-value', 'plain', 'quoted', 'numbered-value', 'mid-name', 'two-names', 'beside-class']
+
+
+def attr_name_head(form, kind, tag='x'):
+    """an element whose attribute *name* carries the numbering form; the value of that attribute is absent, a
+    plain word, a quoted phrase or numbered itself"""
+    h = {'name': tag}
+    if kind == 'no-value':
+        h['attrs'] = [['data-' + form, None]]
+    elif kind == 'plain':
+        h['attrs'] = [['k' + form, 'v']]
+    elif kind == 'quoted':
+        h['attrs'] = [['k' + form, 'v w']]
+    elif kind == 'numbered-value':
+        h['attrs'] = [['k' + form, 'v' + form]]
+    elif kind == 'mid-name':
+        h['attrs'] = [['a' + form + 'b-c', 'v']]
+    elif kind == 'two-names':
+        h['attrs'] = [['title', 'p'], ['a' + form, 'q'], ['b-$$', None]]
+    else:
+        h['cls'] = ['c' + form]
+        h['attrs'] = [['k' + form, 'v']]
+        h['text'] = 't' + form
+    return h
+
+
+def attr_name_cases(nmax, limits):
+    """the 28 templates of `numbering-forms` around an element with a numbered attribute name"""
+    for form in NAME_FORMS:
+        for kind in ATTR_KINDS:
+            H = attr_name_head(form, kind)
+            H2 = attr_name_head(form, 'plain', 'z')
+            for n1 in range(1, nmax + 1):
+                for n2 in [None] + list(range(1, nmax + 1)):
+                    for needs2, ast in templates(H, H2, n1, n2):
+                        if needs2 == (n2 is not None):
+                            for limit in limits:
+                                yield (ast, limit, 'html', False)
+
+
+def random_attr_name_cases(seed, count):
+    """random ASTs as in random_cases; most elements get one or two attributes with a numbering form in the name"""
+    rng = random.Random(seed * 104729 + 6)
+
+    def form():
+        f = '$' * rng.choice((1, 1, 2, 3))
+        if rng.random() < 0.5:
+            rev = rng.random() < 0.5
+            f += '@' + ('-' if rev else '') + (str(rng.choice((0, 1, 2, 9, 97))) if rng.random() < 0.7 or not rev else '')
+        return f
+
+    for _ in range(count):
+        n = rng.randint(2, 8)
+        ast = G.random_ast(rng, n, names=['x'], implicit_p=0.0, id_p=0.0, max_mult=40, rep_p=0.55,
+                           rep_values=(1, 2, 2, 3, 3, 4, 5), group_p=0.25)
+        total = [0]
+
+        def deco(items, mult):
+            for it in items:
+                rep = it[1] if it[0] == 'g' else it[2]
+                m2 = mult * (rep or 1)
+                if rep:
+                    total[0] += m2
+                if it[0] == 'e':
+                    h = numbered_head(form(), rng.choice(POSITIONS), 'x') if rng.random() < 0.4 else {'name': 'q'}
+                    if rng.random() < 0.8:
+                        extra = []
+                        for stem in rng.sample(['d', 'e-', 'f'], rng.choice((1, 1, 2))):
+                            extra.append([stem + form(), rng.choice((None, 'v', 'v', 'a b', 'v' + form()))])
+                        h['attrs'] = extra + h.get('attrs', []) if rng.random() < 0.5 else h.get('attrs', []) + extra
+                    it[1] = h
+                    deco(it[3], m2)
+                else:
+                    deco(it[2], m2)
+        deco(ast, 1)
+        r = rng.random()
+        limit = None if r < 0.6 else rng.randint(1, max(2, total[0] + 2))
+        yield (ast, limit, rng.choice(('html', 'xml', 'xhtml')), rng.random() < 0.5)
+
+
+# ----------------------------------------------------------------------------- clause 7: histories of calls
+def check_history(calls, syntax, fmt, cache_mode):
+    """calls: list of [ast, maxRepeat|None], made one after the other.  The statement speaks about one call:
+    every call of a history must give what the statement says for *its* abbreviation and *its* limit, whatever
+    was expanded before.  cache_mode: 'shared' (one `cache` dict handed to every call, as an editor does),
+    'fresh' (a new dict per call) or 'none'"""
+    from emmet import expand
+    shared = {}
+    for idx, (ast, limit) in enumerate(calls):
+        abbr = G.print_abbr(ast)
+        expected = spec_expand(ast, limit)
+        config = {'syntax': syntax, 'options': {'output.format': fmt}}
+        if limit is not None:
+            config['maxRepeat'] = limit
+        if cache_mode == 'shared':
+            config['cache'] = shared
+        elif cache_mode == 'fresh':
+            config['cache'] = {}
+        out = expand(abbr, config)
+        before = ', '.join('expand(%r, maxRepeat=%r)' % (G.print_abbr(a), l) for a, l in calls[:idx]) or 'nothing'
+        try:
+            got = G.parse_markup(out, void_without_slash=(syntax == 'html'))
+        except G.MarkupError as e:
+            return 'call %d, expand(%r, maxRepeat=%r) after %s, is not well-nested markup (%s): %r' % (idx, abbr, limit, before, e, out)
+        d = _compare(expected, got)
+        if d:
+            return 'call %d of the history (cache: %s, syntax=%s, output.format=%s): expand(%r, maxRepeat=%r) after %s: %s; expected %s; output %r' % (
+                idx, cache_mode, syntax, fmt, abbr, limit, before, d, _show(expected), out)
+    return None
+
+
+def _history_pool(spaces, values):
+    """(ast, product of the counts) for every skeleton / repeater placement of the spaces, at least one repeater"""
+    pool = []
+    for n, gmax, rmax in spaces:
+        for g in range(0, gmax + 1):
+            for skel in G.skeletons(n, g):
+                m = G.count_nodes(skel)
+                for reps in G.rep_assignments(m, rmax, values):
+                    if not reps:
+                        continue
+                    prod = 1
+                    for v in reps.values():
+                        prod *= v
+                    pool.append((_decorate_counting(skel, reps), prod))
+    return pool
+
+
+def history_pair_cases(spaces, values):
+    """every abbreviation of the pool expanded twice on one cache with every ordered pair of limits from
+    {none, 1, 2, .., product+1}, and once after / before its neighbour in the pool with the same pairs of limits
+    reduced to {none, 1, 2, product}"""
+    pool = _history_pool(spaces, values)
+    for k, (ast, prod) in enumerate(pool):
+        limits = [None] + list(range(1, prod + 2))
+        for l1 in limits:
+            for l2 in limits:
+                if l1 != l2:
+                    yield ([[ast, l1], [ast, l2]], 'html', False, 'shared')
+        other, oprod = pool[(k + 1) % len(pool)]
+        for l1 in (None, 1, 2, oprod):
+            for l2 in (None, 1, 2, prod):
+                yield ([[other, l1], [ast, l2]], 'html', False, 'shared')
+
+
+def random_history_cases(seed, count, spaces, values):
+    """histories of 2..5 calls: random abbreviations of the pool, random limits, mostly on one shared cache"""
+    rng = random.Random(seed * 15485863 + 7)
+    pool = _history_pool(spaces, values)
+    for _ in range(count):
+        calls = []
+        for _k in range(rng.randint(2, 5)):
+            ast, prod = rng.choice(pool)
+            r = rng.random()
+            calls.append([ast, None if r < 0.3 else rng.randint(1, prod + 1)])
+        yield (calls, rng.choice(('html', 'xml', 'xhtml')), rng.random() < 0.5, rng.choice(('shared', 'shared', 'shared', 'fresh', 'none')))
+
 
 def run(tier, seed):
     if tier == 'quick':
@@ -538,5 +704,46 @@ def run(tier, seed):
                'syntax, format',
                '%d cases, seed %d' % (nbrand, seed), 'a case is (AST, maxRepeat, syntax, output.format, wrap text)', exhaustive=False)
     run_parallel(c, 'bounded.c02', 'check_repeat', random_bystander_cases(seed, nbrand), chunk=100)
+    out.append(c.done())
+
+    if tier == 'quick':
+        anmax, alimits, narand = 3, (None,), 2000
+        hspaces, hvalues, nhrand = [(1, 1, 1), (2, 1, 2)], (2, 3), 1500
+    else:
+        anmax, alimits, narand = 4, (None, 1, 2, 3, 5), 40000
+        hspaces, hvalues, nhrand = [(1, 2, 2), (2, 1, 2), (3, 0, 2)], (2, 3), 40000
+    c = Clause('numbering-in-attribute-names', 'B',
+               'the 28 templates of numbering-forms around an element whose attribute *name* carries the numbering form: '
+               '%d forms %s x %d kinds %s (`x[data-<f>]`, `x[k<f>=v]`, `x[k<f>="v w"]`, `x[k<f>=v<f>]`, `x[a<f>b-c=v]`, '
+               '`x[title=p a<f>=q b-$$]`, `x.c<f>[k<f>=v]{t<f>}`); the second numbered element is `z[k<f>=v]`'
+               % (len(NAME_FORMS), NAME_FORMS, len(ATTR_KINDS), ATTR_KINDS),
+               'N1, N2 in 1..%d, maxRepeat in %s; html, output.format off' % (anmax, list(alimits)),
+               'a case is (template, form, kind, N1, N2, maxRepeat) given as the resulting AST and limit', exhaustive=True)
+    run_parallel(c, 'bounded.c02', 'check_repeat', attr_name_cases(anmax, alimits), chunk=1000)
+    out.append(c.done())
+
+    c = Clause('random-attribute-names', 'B',
+               'seeded random ASTs of 2..8 elements, repeat counts from (1 2 3 4 5) with nested product <= 40; about 80 %% of the '
+               'elements carry one or two attributes with a random numbering form in the name (value absent / plain / quoted / '
+               'numbered), before or after the other attributes; random maxRepeat, syntax, format',
+               '%d cases, seed %d' % (narand, seed), 'a case is (AST, maxRepeat, syntax, output.format)', exhaustive=False)
+    run_parallel(c, 'bounded.c02', 'check_repeat', random_attr_name_cases(seed, narand), chunk=100)
+    out.append(c.done())
+
+    c = Clause('maxrepeat-call-history', 'B',
+               'histories of two expand() calls on one shared `cache` dict: every abbreviation of the pool (every skeleton, every '
+               'placement of repeaters with counts from %s, elements xJ.n$.k{t$$@-}) twice with every ordered pair of different limits '
+               'from {none, 1..product+1}, and after its neighbour in the pool with limits {none, 1, 2, product} each; every call is '
+               'compared with what the statement says for its own abbreviation and limit' % (hvalues,),
+               '; '.join('%d elements, <=%d groups, <=%d repeaters' % s for s in hspaces) + '; html, output.format off',
+               'a case is the list of (AST, maxRepeat) calls', exhaustive=True)
+    run_parallel(c, 'bounded.c02', 'check_history', history_pair_cases(hspaces, hvalues), chunk=500)
+    out.append(c.done())
+
+    c = Clause('random-call-histories', 'B',
+               'seeded random histories of 2..5 expand() calls with abbreviations of the same pool, random maxRepeat (30 % none), '
+               'random syntax and format, cache shared by all calls (60 %) / fresh per call / absent',
+               '%d histories, seed %d' % (nhrand, seed), 'a case is (calls, syntax, output.format, cache mode)', exhaustive=False)
+    run_parallel(c, 'bounded.c02', 'check_history', random_history_cases(seed, nhrand, hspaces, hvalues), chunk=100)
     out.append(c.done())
     return out
